@@ -31,6 +31,7 @@ TCommit == IsEvent("commit") /\
 
 TBlock == IsEvent("block") /\ Block(R.h, ToSet(R.txs))
 TIdle == IsEvent("idle") /\ Idle(R.from, R.h)
+TJump == IsEvent("jump") /\ Jump(R.from, R.h)
 TPreimage == IsEvent("preimage") /\ Preimage(R.node, R.hash)
 TSpendable == IsEvent("spendable") /\ Spendable(R.node, R.outs)
 TSweep == IsEvent("sweep") /\
@@ -43,7 +44,7 @@ TFinal == IsEvent("final") /\ Final(R)
 TSilent == l <= Len(Rec) /\ Rec[l].ev \in {"reload", "feerate", "rebroadcast", "bump", "ldk_log"} /\ l' = l + 1 /\ Silent
 \* `panic` and `commit_unknown` have no action: a run containing one is rejected
 
-TraceNext == TOpen \/ TBcast \/ TCommit \/ TBlock \/ TIdle \/ TPreimage \/ TSpendable \/ TSweep
+TraceNext == TOpen \/ TBcast \/ TCommit \/ TBlock \/ TIdle \/ TJump \/ TPreimage \/ TSpendable \/ TSweep
              \/ TBal \/ TState \/ TFinal \/ TSilent
 
 TraceSpec == TraceInit /\ [][TraceNext]_tvars
